@@ -72,7 +72,11 @@ def setup_repo_path():
 # ----------------------------------------------------------------------------------------------
 class Lean:
     def __init__(self):
-        if not os.path.exists(DRIVER):
+        for _ in range(240):  # a concurrent relink removes the binary for a moment
+            if os.path.exists(DRIVER) and os.access(DRIVER, os.X_OK):
+                break
+            time.sleep(0.5)
+        else:
             raise HarnessError("lean driver not built: " + DRIVER)
         self.p = subprocess.Popen([DRIVER], stdin=subprocess.PIPE, stdout=subprocess.PIPE, text=True, bufsize=1)
         self.calls = 0
